@@ -675,13 +675,29 @@ func ParentMain(id string, opt Options) int {
 	var unknown []Violation
 	var knownHit []string
 	sort.Slice(agg.Violations, func(i, j int) bool { return agg.Violations[i].Fingerprint < agg.Violations[j].Fingerprint })
+	hit := map[string]bool{}
 	for _, v := range agg.Violations {
-		if f, ok := known[v.Fingerprint]; ok {
+		if _, ok := known[v.Fingerprint]; ok {
 			knownHit = append(knownHit, v.Fingerprint)
-			fmt.Printf("KNOWN-FINDING: property=%s %s [%s]\n", id, f.What, v.Fingerprint)
+			hit[v.Fingerprint] = true
 			continue
 		}
 		unknown = append(unknown, v)
+	}
+	// one line per listed (genuine, unrepaired) finding of this property, whether or not this run happened to drive the
+	// history that shows it (several depend on the schedule); a replay of selected cases lists only what it observed
+	var fps []string
+	for fp := range known {
+		fps = append(fps, fp)
+	}
+	sort.Strings(fps)
+	for _, fp := range fps {
+		switch {
+		case hit[fp]:
+			fmt.Printf("KNOWN-FINDING: property=%s %s [%s; observed in this run]\n", id, known[fp].What, fp)
+		case len(opt.ReplayIdx) == 0:
+			fmt.Printf("KNOWN-FINDING: property=%s %s [%s; listed, not driven by this run's cases]\n", id, known[fp].What, fp)
+		}
 	}
 	exit := 0
 	replayDir := filepath.Join(verifDir(), "replays", id)
